@@ -65,7 +65,7 @@ claim("C02", "proof",
       "failure door hands over a visible error report) are checked on the real pipeline. Tie: failure injection of every class (missing / "
       "undecodable / dangling / extension-less file, bad pragma, lexical and syntactic error at token positions, unterminated comment, "
       "truncation, parameter collision, tuple/anonymous-component misuse, read-before-assignment, several mains) into clean generated "
-      "projects, observed on the real binary at default level and --level error.",
+      "projects, observed on the real binary at default level and --level error. Further classes since round 3: existing files named without the extension .circom (fix 4631743), library templates misused by a named file, function/template name clashes.",
       "Lean kernel + standard axioms; parser-level failure classes are covered by the injection runs, not by a model of the LALRPOP parser.",
       "Lean 4 proof on the report-flow model + failure injection on the real binary", "5 (C03/C02/C17)")
 claim("C17", "proof",
@@ -235,7 +235,7 @@ claim("C19", "proof",
       "input iff its canonical path was named, and every named file is read. Tie per run: generated directory trees (6 directories, file and "
       "directory symlinks, 8 spellings, cycles, unparsable/unreadable files, directory and single-file libraries) are abstracted by an "
       "independent resolver; order of reads, user flags and ordered located errors of the real parse_files = model (L2); reachability oracle, "
-      "no duplicate, error located exactly at the include statement, only named files' definitions analysed and displayed, binary exit 0/1 (L1).",
+      "no duplicate, error located exactly at the include statement, only named files' definitions analysed and displayed, binary exit 0/1 (L1). After the round-3 repairs (345938e, fbd2e79, 6f927a8): every written path is looked up in the -L directories, a library file is matched by the name it was given, an unreadable included file is reported at the include statement, and named directories with symbolic links back into the tree are read once (a stage through the real binary under a time limit); the resolution oracle states the property literally instead of copying the code's exception for dotted paths.",
       "Lean kernel + standard axioms; the OS (canonicalize, is_dir, read_to_string) is abstracted into the tables computed by "
       "checks/c19.py with Python's realpath/isfile; directory inputs (read_dir order) are not generated.",
       "Lean 4 proof (invariant + termination measure for the include work list) + correspondence on materialised trees + reachability oracle", "5 (C19)")
